@@ -21,6 +21,7 @@ EXPLANATION = (
     "history writer's list order equals the loader's index order.  R12.10: a save is never skipped on a condition over the data (an empty history still rewrites the file).  R12.9: no saved field depends on the change's class identity against a class the reader does not rebuild.  R12.8: a non-inline dict key is stored under the "
     "index at which it was appended to the reference table (evaluation-order aware).  Value-level round-trip equality is not decided."
     ' R12.12 (=R11.9): saved history slots come back in the saved order and into the list they were written from.'
+    ' R12.13: a reloaded create/remove change gets a Folder exactly when the saved folder flag is set.'
 )
 ASSUMPTIONS = ["taint is flow-insensitive with control dependence on if-tests", "json.dumps/loads behave as documented"]
 
